@@ -237,12 +237,22 @@ class Step:
         elif k == 'Return':
             raise Returned(self.ev(self.unwrap(sx(node['e'])), env) if node.get('e') is not None else None)
         elif k == 'If':
-            if self.ev(self.unwrap(sx(node['c'])), env):
+            from .tree import const_value as _cv
+            folded = _cv(node['c']) if self.loops else None
+            if (bool(folded) if folded is not None else self.ev(self.unwrap(sx(node['c'])), env)):
                 self.run(node.get('t'), env, ignore)
             else:
                 self.run(node.get('e'), env, ignore)
         elif k == 'Decl':
             for v in node['vars']:
+                if isinstance(env, Env):
+                    # a fixed-size Eigen column vector declared without a value: a concrete small vector (its entries are written before they are read, or the read is of what the code left)
+                    import re as _re
+                    m_ = _re.match(r'(?:const )?Eigen::Matrix<[^,]+, (\d+), 1[,>]', (v.get('t') or {}).get('s', ''))
+                    i0 = self.unwrap(sx(v['init'])) if v.get('init') is not None else None
+                    if m_ and int(m_.group(1)) <= 4 and (v.get('init') is None or (isinstance(i0, tuple) and len(i0) == 1 and str(i0[0]).startswith('new:'))):
+                        env[v['name']] = [0] * int(m_.group(1))
+                        continue
                 if v.get('init') is None:
                     raise Unsupported('uninitialised local %s' % v['name'])
                 from .tree import const_value
@@ -251,6 +261,14 @@ class Step:
                     env[v['name']] = cv             # an initialiser the compiler folded (a trait constant, a constexpr)
                     continue
                 t = self.unwrap(sx(v['init']))
+                if (v.get('t') or {}).get('ref') and isinstance(env, Env) and isinstance(t, tuple) and len(t) == 3 and t[0] in ('[]', '()') and isinstance(t[2], int) and not isinstance(t[2], bool):
+                    try:
+                        bk_ = self.key(t[1])
+                        if isinstance(env.get(bk_), list) and 0 <= t[2] < len(env[bk_]):
+                            self.aliases[v['name']] = ('elem', bk_, t[2])         # a reference to one element of a concrete small vector
+                            continue
+                    except Unsupported:
+                        pass
                 if (v.get('t') or {}).get('ref'):
                     try:
                         self.aliases[v['name']] = self.key(t)
@@ -337,6 +355,28 @@ class Step:
         return None
 
 
+class Env(dict):
+    """environment of the step evaluator in which a key may be ('elem', base, i): element i of the concrete small vector stored under `base` (a local reference `size_t & x = v[0]`)"""
+    def __getitem__(self, k):
+        if isinstance(k, tuple) and len(k) == 3 and k[0] == 'elem':
+            return dict.__getitem__(self, k[1])[k[2]]
+        return dict.__getitem__(self, k)
+
+    def __setitem__(self, k, v):
+        if isinstance(k, tuple) and len(k) == 3 and k[0] == 'elem':
+            dict.__getitem__(self, k[1])[k[2]] = v
+        else:
+            dict.__setitem__(self, k, v)
+
+    def __contains__(self, k):
+        if isinstance(k, tuple) and len(k) == 3 and k[0] == 'elem':
+            return dict.__contains__(self, k[1]) and isinstance(dict.__getitem__(self, k[1]), list) and 0 <= k[2] < len(dict.__getitem__(self, k[1]))
+        return dict.__contains__(self, k)
+
+    def get(self, k, d=None):
+        return self[k] if k in self else d
+
+
 def inliner(fx, step, max_depth=4, cls=None):
     """A fallback for `step` that evaluates calls of in-repository free functions / methods with a body (unique by name and arity) by running the callee's body on the argument values
     (value semantics; no write-back).  step.fallback = inliner(fx, step)."""
@@ -364,7 +404,7 @@ def inliner(fx, step, max_depth=4, cls=None):
             list_hooks(sub, step.loops)                       # the callee's own iterators act on the callee's environment
         inner = sub.fallback
         sub.fallback = (lambda t_, e_: (lambda r_: r_ if r_ is not NotImplemented else fb(t_, e_))(inner(t_, e_))) if inner is not None else fb
-        e2 = {p_['name']: step.ev(a_, env) for p_, a_ in zip(g['params'], args)}
+        e2 = (Env if isinstance(env, Env) else dict)({p_['name']: step.ev(a_, env) for p_, a_ in zip(g['params'], args)})
         for k_, v_ in env.items():
             if isinstance(k_, str) and k_.startswith('this.') and method:
                 e2.setdefault(k_, v_)
